@@ -47,6 +47,7 @@ type RunResult struct {
 	Observes     map[string]int
 	InitFails    map[string]int
 	DistinctPaths int
+	Cuts          map[string]int
 }
 
 type workItem struct {
@@ -60,7 +61,7 @@ func explore(p *Program, cfg *HarnessCfg, workers int, deadline time.Time) (*Run
 	}
 	rr := &RunResult{Harness: cfg.Func, PathEnds: map[string]int{}, Reached: map[string]bool{}, ReachModels: map[string][]NondetRec{},
 		Funcs: map[*ssa.Function]bool{}, Stubs: map[string]int{}, Inconclusive: map[string]int{}, Unsupported: map[string]int{},
-		ObLabels: map[string]int{}, Observes: map[string]int{}, InitFails: map[string]int{}}
+		ObLabels: map[string]int{}, Observes: map[string]int{}, InitFails: map[string]int{}, Cuts: map[string]int{}}
 	t0 := time.Now()
 
 	var mu sync.Mutex
@@ -131,6 +132,9 @@ func explore(p *Program, cfg *HarnessCfg, workers int, deadline time.Time) (*Run
 			}
 			for _, s := range res.InitFails {
 				rr.InitFails[s]++
+			}
+			for _, s := range res.Cuts {
+				rr.Cuts[s]++
 			}
 			nontrivial := false
 			for _, ob := range res.Obligations {
